@@ -392,6 +392,8 @@ def compute_loop_summary(ex, gpc, st, s, view, stats, branch_timeout_ms):
         for a in fdef.args.args:
             if a.arg == "j":
                 args.append(mk_int(jj))
+            elif a.arg.endswith("_entry") and a.arg[:-6] in getattr(ex, "entry_args", {}):
+                args.append(ex.entry_args[a.arg[:-6]])
             elif a.arg in f2.vars:
                 args.append(f2.vars[a.arg])
             else:
@@ -830,16 +832,49 @@ def exec_while(ex, ctx, st, s):
     h_heap = {a: z3.Const(f"hH_{a.replace('$', 'S')}!{ctx.explorer.uid}.{ctx.fresh_n}", heap0[a].sort()) for a in attrs}
     hsyms = {t.decl().name() for t in list(h_loc.values()) + list(h_heap.values())}
 
-    def run_iter(setup):
+    # explicit invariant (sidecar `loop_inv_<n>`), bound by loop ordinal; its parameters name locals of the function
+    inv = None
+    n_loop = None
+    if fr_i == getattr(ex, "top_frame_index", -1):
+        n_loop = ex.loop_ids.get(id(s))
+        inv = ex.loop_invs.get(n_loop)
+
+    def eval_inv(c2, st2, as_goal=False):
+        scope, fdef = inv
+        f2 = st2.frames[fr_i]
+        args = []
+        for a in fdef.args.args:
+            if a.arg.endswith("_entry") and a.arg[:-6] in getattr(ex, "entry_args", {}):
+                args.append(ex.entry_args[a.arg[:-6]])
+            elif a.arg in f2.vars:
+                args.append(f2.vars[a.arg])
+            else:
+                raise CheckerError(f"loop invariant {fdef.name}: no local named {a.arg}")
+        from . import calls
+        return calls.eval_spec_bool(ex, c2, st2, (scope, fdef), args, as_goal=as_goal)
+
+    if inv is not None:
+        ctx.oblige(f"{fr.fname}#loop{n_loop}.invariant-initial", eval_inv(ctx, st, as_goal=True),
+                   {"kind": "loop-invariant", "line": s.lineno})
+
+    def run_iter(setup, check_inv=False):
         def run(c2):
             st2 = st.copy()
             st2.idx = st2.idx + [j]
             setup(c2, st2)
+            if inv is not None:
+                c2.assume(eval_inv(c2, st2))
             try:
                 c = ex.truth(c2, st2, ex.eval(c2, st2, s.test))
                 if not c2.branch(c):
                     return st2, "exit", None
-                ex.exec_block(c2, st2, s.body)
+                try:
+                    ex.exec_block(c2, st2, s.body)
+                except ContinueEx:
+                    pass
+                if inv is not None and check_inv:
+                    c2.oblige(f"{fr.fname}#loop{n_loop}.invariant-preserved", eval_inv(c2, st2, as_goal=True),
+                              {"kind": "loop-invariant", "line": s.lineno})
                 return st2, "fall", None
             except ContinueEx:
                 return st2, "continue", None
@@ -891,7 +926,7 @@ def exec_while(ex, ctx, st, s):
                     c2.assume(z3.Select(hv, tr) == z3.Select(heap0[a], tr))
 
     sub2 = Explorer(parent=ctx, base_kinds=ctx.kinds, base_pc=ctx.pc + [j >= 0], branch_timeout_ms=ctx.explorer.branch_timeout_ms, stats=stats)
-    res2 = sub2.explore(run_iter(setup2))
+    res2 = sub2.explore(run_iter(setup2, check_inv=True))
     exits = [r for r in res2 if r.outcome not in ("fall", "continue")]
     for r in res2:
         for ob in r.obligations:
